@@ -14,7 +14,7 @@ from . import _strict, c15
 PROPERTY = "C10"
 LEVEL = "fault_enumeration"
 RULE = (
-    "generated commands, responses, structures and streams: the whole input and every cut point, with a counting byte "
+    "generated commands, responses, structures and streams: the whole input and every cut point (strict mode; warn mode on the whole input and on every second cut point, thorough: all), with a counting byte "
     "source (pull log vs running sum of emitted field bytes); 11 other source kinds (file objects through bytes_from_files, an iterator with close(), bytes, bytearray, list, tuple, iterator, "
     "generator, memoryview, array, deque) must give identical events / outcome; hex and swtpm-log renderings with layout "
     "noise fed through a counting character source; several files through bytes_from_files with logged read() calls; "
@@ -39,6 +39,8 @@ def lookahead(t, rec, case):
     for ev in t.events:
         if ev.kind == "M" and isinstance(ev.chunk, bytes):
             consumed += len(ev.chunk) if isinstance(ev.chunk, bytes) else 0
+        if ev.kind == "W" and ev.err["cls"] == "InputStreamBytesDepletedError":
+            continue  # the input ended inside a field: its bytes were pulled and no event can show them
         d = ev.pulls - consumed
         worst = max(worst, d)
         rec.count("events_checked")
@@ -85,8 +87,33 @@ def check_base(base, rec, rng, thorough):
     cuts = list(range(len(base.d)))
     if not thorough and len(cuts) > 40:
         cuts = sorted(set(rng.sample(cuts, 36) + [0, 1, len(base.d) - 1, len(base.d) - 2]))
+    # warn mode reads the same way: one byte of look-ahead, prefix-stable
+    whole_w = TR.run(base.t, base.d, strict=False, cc=base.cc, enc=base.enc)
+    rec.count("warn_mode_runs")
+    lookahead(whole_w, rec, cases.Case(base.t, base.d, base.cc, base.enc, origin=base.origin, fault=dict(kind="mode", mode="warn"), sig=base.sig))
+    if not same_trace(whole, whole_w):
+        rec.violation("mode", "warn-differs-on-well-formed", f"{base.short()}\nwarn mode on the well-formed input: {len(whole_w.events)} events / {whole_w.outcome}, strict: {len(whole.events)} / {whole.outcome}", base.replay())
     for cut in cuts:
         fc = cases.Case(base.t, base.d[:cut], base.cc, base.enc, origin=base.origin, fault=dict(kind="cut", at=cut, of=len(base.d)), sig=("cut", base.sig, cut))
+        if thorough or cut % 2 == 0 or cut >= len(base.d) - 2:
+            tw = TR.run(fc.t, fc.d, strict=False, cc=fc.cc, enc=fc.enc)
+            rec.count("warn_mode_runs")
+            fw = cases.Case(fc.t, fc.d, fc.cc, fc.enc, origin=fc.origin, fault=dict(fc.fault, mode="warn"), sig=fc.sig)
+            if tw.outcome[0] in ("ok", "depleted"):
+                lookahead(tw, rec, fw)
+                nw = len(tw.mevents)
+                okw = nw <= len(whole.mevents) and all(
+                    (a.path, a.tname, a.value, a.vclass) == (b.path, b.tname, b.value, b.vclass) for a, b in zip(tw.mevents, whole.mevents))
+                done = 0
+                for i, sp in enumerate(spans):
+                    if sp is not None and sp[1] <= cut:
+                        done = i + 1
+                if not okw:
+                    rec.violation("prefix", "warn:not-a-prefix", f"{fw.short()}\nwarn mode: events of the prefix are not a prefix of the events of the whole input", fw.replay(mode="warn", whole=base.d.hex()))
+                elif nw < done:
+                    rec.violation("prefix", "warn:complete-field-missing", f"{fw.short()}\nwarn mode: field #{done - 1} {whole.mevents[done - 1]!r} is complete in the prefix but only {nw} field events were emitted", fw.replay(mode="warn", whole=base.d.hex()))
+            else:
+                rec.count(f"warn_prefix_outcome_{tw.okind()}")
         t = TR.run(fc.t, fc.d, strict=True, cc=fc.cc, enc=fc.enc)
         rec.case(fc.sig, nontrivial=True)
         lookahead(t, rec, fc)
@@ -125,7 +152,7 @@ def run_shard(shard, rec):
 
 def finish(m, tier):
     inc = probes.missing(m, ANCHORS)
-    for k in ("events_checked", "distance_1", "distance_0", "source_kind_runs", "lazy_hex_events", "lazy_swtpm_events", "lazy_files_events", "bufferedreader_runs", "multi_file_runs_with_empty_inner_file"):
+    for k in ("warn_mode_runs", "events_checked", "distance_1", "distance_0", "source_kind_runs", "lazy_hex_events", "lazy_swtpm_events", "lazy_files_events", "bufferedreader_runs", "multi_file_runs_with_empty_inner_file"):
         if not m["counters"].get(k):
             inc.append(f"no {k}")
     return dict(inconclusive=inc)
@@ -135,6 +162,14 @@ def replay(r, rec):
     case = cases.Case.from_replay(r)
     if r.get("lazy"):
         c15.replay_lazy(r, rec)
+        return
+    if r.get("whole"):
+        base = cases.Case(case.t, bytes.fromhex(r["whole"]), case.cc, case.enc, origin=case.origin, sig=("replay",))
+        check_base(base, rec, random.Random(0), True)
+        return
+    if case.fault and case.fault.get("mode") == "warn":
+        t = TR.run(case.t, case.d, strict=False, cc=case.cc, enc=case.enc)
+        lookahead(t, rec, case)
         return
     if case.fault and case.fault.get("kind") == "cut":
         t = TR.run(case.t, case.d, strict=True, cc=case.cc, enc=case.enc)
